@@ -95,6 +95,48 @@ Theorem C12_tapscript_marker : forall t0 script v, 0 <= t_path_len t0 -> inv_tap
   end.
 Proof. exact (tap_marker (fun _ => true) (fun _ _ _ _ => true) (fun b => b)). Qed.
 
+(* --- pay-to-script-hash spends: scriptSig, "<<< scriptPubKey >>>", scriptPubKey, "<<< P2SH script >>>", redeem script *)
+Theorem C12_three_section_listing : forall c script succ stack ed, succ <> [] -> (c_sigver c =? SV_TAPSCRIPT) = false ->
+  (has_flag (c_flags c) Gen.Consts.SCRIPT_VERIFY_P2SH && is_p2sh_script succ) = true ->
+  session_listing c (setup_env c script stack succ ed None) = three_listing script succ (last_push script).
+Proof. exact session_listing_three. Qed.
+
+(* every state reached by successful steps of such a spend whose scriptSig consists of data pushes (the standard form: signatures, then the
+   serialized redeem script) satisfies the three-section invariant - through the switch to the scriptPubKey, where the stack is saved, and the
+   switch to the redeem script, which is the scriptSig's last push ... *)
+Theorem C12_p2sh_session_invariant : forall low_s tap_tweak_ok sha256 c script succ stack ed v,
+  succ <> [] -> p2sh_shape (c_flags c) succ = true -> data_pushes script ->
+  i_p2sh (setup_env c script stack succ ed None) = false ->
+  reach low_s tap_tweak_ok sha256 c (setup_env c script stack succ ed None) v ->
+  inv3 script succ (last_push script) v.
+Proof. intros. eapply p2sh_session_reachable; eassumption. Qed.
+
+(* ... for any scriptSig the invariant is kept by a step as long as the script listed as redeem script is the one on top of the stack when the
+   scriptSig ends (stated separately because the listing is built before anything runs) ... *)
+Theorem C12_three_section_invariant_step : forall low_s tap_tweak_ok sha256 c script succ redeem v v', succ <> [] -> p2sh_shape (c_flags c) succ = true ->
+  (i_succ v = succ -> i_pc v = [] -> exists rest, e_stack (i_e v) = redeem :: rest) ->
+  inv3 script succ redeem v -> Session.dbg_step low_s tap_tweak_ok sha256 c v = (v', SOk) -> inv3 script succ redeem v'.
+Proof. exact inv3_step. Qed.
+
+(* ... and in every state of the invariant the marker designates the next operation, at the end of a section the header of the section the
+   next step enters, and after the last operation of the redeem script nothing *)
+Theorem C12_three_section_marker : forall script succ redeem v, succ <> [] -> inv3 script succ redeem v ->
+  match i_pc v with
+  | _ :: _ => forall op pc', get_op (i_pc v) = (Some op, pc') ->
+               marked_line (three_listing script succ redeem) (i_seq v) = Some (numbered (i_seq v) (op_line op))
+  | [] => if (match i_succ v with [] => false | _ => true end) then marked_line (three_listing script succ redeem) (i_seq v) = Some HDR_SPK
+          else if i_p2sh v then marked_line (three_listing script succ redeem) (i_seq v) = Some HDR_P2SH
+          else marked_line (three_listing script succ redeem) (i_seq v) = None
+  end.
+Proof. exact (three_sections_marker (fun _ => true) (fun _ _ _ _ => true) (fun b => b)). Qed.
+
+(* non-vacuity: <07> <51 87> is such a scriptSig (two data pushes; the redeem script listed is 5187) *)
+Example C12_data_pushes_ex : data_pushes [1; 7; 2; 81; 135] /\ last_push [1; 7; 2; 81; 135] = [81; 135].
+Proof.
+  assert (E: decode_ops [1; 7; 2; 81; 135] = [(1, [7]); (2, [81; 135])]) by (vm_compute; reflexivity).
+  split; [split; rewrite E; [discriminate|repeat constructor; cbn [fst]; change Gen.Consts.OP_PUSHDATA4 with 78; lia]|vm_compute; reflexivity].
+Qed.
+
 Print Assumptions C12_line_numbers_are_positions.
 Print Assumptions C12_tapscript_listing.
 Print Assumptions C12_tapscript_invariant_start.
@@ -104,6 +146,10 @@ Print Assumptions C12_two_section_listing.
 Print Assumptions C12_two_section_invariant_start.
 Print Assumptions C12_two_section_invariant_step.
 Print Assumptions C12_two_section_marker.
+Print Assumptions C12_three_section_listing.
+Print Assumptions C12_p2sh_session_invariant.
+Print Assumptions C12_three_section_invariant_step.
+Print Assumptions C12_three_section_marker.
 Print Assumptions C12_nothing_marked_past_the_end.
 Print Assumptions C12_listing_is_the_decoding.
 Print Assumptions C12_position_counts_executed_operations.
